@@ -252,14 +252,67 @@ def checkpoint_typestate(ctx: Ctx, rule: str, f: Func, effects=(), undos=(), reg
     REG   registration of a waiter (needs UNDO if the wait is interrupted, no CHK needed before)
     UNDO  release / deregistration
     errors: EFFECT before CHK; normal return without YIELD; exit by cancellation after EFFECT/REG without UNDO."""
-    spec = [("CHK", list(CHK_PATS) + list(blocks) + list(delegates)),
-            ("YIELD", list(YIELD_PATS) + list(blocks) + list(delegates)),
+    # equivalent spellings of a deregistration
+    import re as _re0
+    undos = list(undos)
+    for pat in list(undos):
+        m = _re0.match(r"^([A-Za-z_][\w.]*)\.pop\((.+), None\)$", pat)
+        if m:
+            undos.append(f"del {m.group(1)}[{m.group(2)}]")
+        m = _re0.match(r"^del ([A-Za-z_][\w.]*)\[(.+)\]$", pat)
+        if m:
+            undos.append(f"{m.group(1)}.pop({m.group(2)}, None)")
+        m = _re0.match(r"^([A-Za-z_][\w.]*)\.remove\((.+)\)$", pat)
+        if m:
+            undos.append(f"{m.group(1)}.discard({m.group(2)})")
+    undos = list(dict.fromkeys(undos))
+    # `await sleep(0)` is what checkpoint() / cancel_shielded_checkpoint() are made of: written out, it yields, and it is a
+    # cancellation check unless it stands inside `with CancelScope(shield=True)`
+    from sa.engine.cfg import is_shield_with as _is_shield
+    from sa.engine.pattern import find_all as _find_all
+
+    def _sleep0(frag, node, want_unshielded):
+        if frag is None:
+            return False
+        for pat in ("await sleep(0)", "await asyncio.sleep(0)"):
+            for m, _b in _find_all(pat, frag, own=True):
+                cur, sh = m, False
+                while cur is not None and cur is not f.node:
+                    if isinstance(cur, (ast.With, ast.AsyncWith)) and _is_shield(cur):
+                        sh = True
+                    cur = getattr(cur, "_parent", None)
+                if not (want_unshielded and sh):
+                    return True
+        return False
+
+    spec = [("CHK", list(CHK_PATS) + list(blocks) + list(delegates) + [lambda frag, node: _sleep0(frag, node, True)]),
+            ("YIELD", list(YIELD_PATS) + list(blocks) + list(delegates) + [lambda frag, node: _sleep0(frag, node, False)]),
             ("EFFECT", list(effects)), ("REG", list(regs)), ("UNDO", list(undos))]
     spec = [(n, p) for n, p in spec if p]
+    # LBYL deregistration (`if item in q: q.remove(item)`): on the branch where the membership test fails nothing is registered any more
+    import re as _re
+    queues = set()
+    for pat in list(undos):
+        m = _re.match(r"^(?:del )?([A-Za-z_][\w.]*)(?:\.(?:remove|discard|pop)\(|\[)", pat)
+        if m:
+            queues.add(m.group(1))
+    if queues:
+        from sa.engine.facts import atom as _atom
+
+        def gone(frag, node):
+            if node.kind != "test":
+                return False
+            k, _ = _atom(node.node)
+            return any(k.endswith(" in " + q) for q in queues)
+        spec.append(("MEMBER", [gone]))
 
     # state: (chk, yielded, pending_effect)
     def step(st, e, c):
         chk, yl, eff = st
+        if e == "MEMBER":
+            if not c.is_exc and any(k.endswith(" in " + q) and p is False for q in queues for k, p in c.facts if (k, p) not in c.facts_before):
+                return (chk, yl, False)
+            return st
         if e == "CHK":
             return (True, yl, eff)          # on the exceptional edge the check raised: still "checked"
         if e == "YIELD":
